@@ -215,8 +215,15 @@ func c04Run(cfg deriveCfg) {
 	verifrt.Reach("c04.end")
 }
 
-func VerifC04Plain()      { c04Run(deriveCfg{depth: 2, maxStr: 1, shards: 1}) }
-func VerifC04Sanitized()  { c04Run(deriveCfg{depth: 1, maxStr: -1, shards: 1, sanitize: true}) }
+func VerifC04Plain()     { c04Run(deriveCfg{depth: 2, maxStr: 1, shards: 1}) }
+func VerifC04Sanitized() { c04Run(deriveCfg{depth: 1, maxStr: -1, shards: 1, sanitize: true}) }
+
+// VerifC04SanitizedOrder: the sanitized variant under every iteration order of the (small) tag maps
+// - a re-tag whose raw key differs from, but sanitizes to, a key of the parent must still win.
+func VerifC04SanitizedOrder() {
+	verifrt.PermuteMaps(2)
+	c04Run(deriveCfg{depth: 1, maxStr: -1, shards: 1, sanitize: true})
+}
 func VerifC04Sanitized2() { c04Run(deriveCfg{depth: 2, maxStr: -1, shards: 1, sanitize: true}) }
 func VerifC04Shards2()    { c04Run(deriveCfg{depth: 2, maxStr: 1, shards: 2}) }
 func VerifC04TwoTags() {
